@@ -303,4 +303,19 @@ theorem Family.guard_sound {K : Type} [Field K] [LinearOrder K] [IsStrictOrdered
   simp only [hg, Bool.not_true, Bool.false_or, List.all_eq_true, List.mem_range] at hg'
   exact Tree.guarded_sound ho env _ (path := []) (by intro cb hcb; simp at hcb) (hg' j hj)
 
+/-- **walk mode, rational leaves**: the traced tree and a specification tree of another shape select, for every input, leaves that are equal as
+    rational functions; so the two trees evaluate alike in every ordered field whenever neither selected leaf divides by zero -/
+theorem Family.walk_frac_sound {K : Type} [Field K] [LinearOrder K] [IsStrictOrderedRing K] {o : Ops K}
+    (ho : OrderedEqLike o) (h : f.ok look = true) (htm : f.treeMode = true) (hw : f.treeWalk = true) (hk : f.kind = .frac)
+    {ks : List Nat} (hks : ks ∈ f.keys) {j : Nat} (hj : j < f.nOut ks) (env : Nat → K)
+    (hd1 : (((look f.unit ks).out j).select o env).divOK o env) (hd2 : ((f.specT ks j).select o env).divOK o env) :
+    ((look f.unit ks).out j).eval o env = (f.specT ks j).eval o env := by
+  obtain ⟨path, _, hl⟩ := treeEqv_sound (impliedAll_sound ho env) _ _ (Family.walk_elim h htm hw hks hj)
+    (by intro cb hcb; cases hcb)
+  rw [Tree.eval_eq_select o env ((look f.unit ks).out j), Tree.eval_eq_select o env (f.specT ks j)]
+  simp only [Family.leafOK, hk, Bool.and_eq_true, Bool.or_eq_true] at hl
+  rcases hl.1 with h1 | h1
+  · rw [eq_of_beq h1]
+  · exact fracEq_sound ho.toOrderedLike.toFieldLike h1 env hd1 hd2
+
 end Glm
